@@ -46,7 +46,9 @@ I64(n, r)  == Tk("i64", n, "", 8, r)
 Bool(b, r) == Tk("bool", IF b THEN 1 ELSE 0, "", 1, r)
 B32(s)     == Tk("b32", 0, s, 32, "val")
 B256(s)    == Tk("b256", 0, s, 256, "val")
-BigLen(n)  == IF n = 0 THEN 0 ELSE IF n < 256 THEN 1 ELSE IF n < 65536 THEN 2 ELSE IF n < 16777216 THEN 3 ELSE 4
+(* amounts -1 and -2 stand for the two extreme integers of the maximal length of 128 bytes, 2^1024 - 1 and 2^1016 (TLC's *)
+(* integers have 32 bits)                                                                                             *)
+BigLen(n)  == IF n < 0 THEN 128 ELSE IF n = 0 THEN 0 ELSE IF n < 256 THEN 1 ELSE IF n < 65536 THEN 2 ELSE IF n < 16777216 THEN 3 ELSE 4
 Big(n)     == Tk("big", n, "", BigLen(n), "big")
 Blob(s, l, r) == Tk("blob16", 0, s, l, r)
 StrLen(s)  == CASE s = "" -> 0 [] s = "no" -> 2 [] s = "not with these funds" -> 20 [] OTHER -> Len(s)
@@ -176,8 +178,8 @@ EncAlts(x) == SetToSeq({ Enc([ty |-> x.ty, v |-> y]) : y \in AltValues(x) })
 WSym == <<"W1", "W2", "W3", "W4", "W5", "W6", "W7", "W8", "W9">>
 NSym == <<"N1", "N2", "N3">>
 ASym == <<"A1", "A2", "A3">>
-Amts == <<0, 5, 256, 70000, 2147483647, 1, 255, 65536>>
-Amt(i, j) == Amts[((i * 3 + j) % 8) + 1]
+Amts == <<0, 5, 256, 70000, 2147483647, 1, 255, 65536, -1, -2>>
+Amt(i, j) == Amts[((i * 3 + j) % 10) + 1]
 WM(s) == <<[b |-> 0, a |-> s]>>
 NM(s) == <<[b |-> 0, a |-> s]>>
 NM2(s, t) == <<[b |-> 0, a |-> s], [b |-> 1, a |-> t]>>
@@ -410,7 +412,7 @@ MutSane(u) == \A x \in V("Balances", BalsDom) \cup V("SubAlloc", SubAllocs) :
 (***************************************************************************)
 SetAt(seq, i, v) == [seq EXCEPT ![i] = v]
 Drop(seq) == SubSeq(seq, 1, Len(seq) - 1)
-Bump(x) == IF x >= MaxInt32 THEN 3 ELSE x + 1
+Bump(x) == IF x >= MaxInt32 \/ x < 0 THEN 3 ELSE x + 1
 OtherApp(a) == IF a = "none" THEN "APP1" ELSE IF a = "APP1" THEN "APP2" ELSE "APP1"
 OtherData(d) == IF d = "D1" THEN "D2" ELSE "D1"
 StateVariants(s) ==
@@ -419,7 +421,7 @@ StateVariants(s) ==
       np == NPof(al)
       nl == Len(al.locked)
   IN { <<"id", [s EXCEPT !.id = "I9"]>>, <<"version", [s EXCEPT !.ver = @ + 1]>>, <<"final", [s EXCEPT !.fin = ~@]>>,
-       <<"data", [s EXCEPT !.data = OtherData(@)]>> }
+       <<"data", [s EXCEPT !.data = OtherData(@)]>>, <<"data-other", [s EXCEPT !.data = "D3"]>> }
      \cup (IF s.app = "none" THEN { <<"app", [s EXCEPT !.app = "APP1", !.data = IF s.data = "D0" THEN "D1" ELSE s.data]>> }
            ELSE { <<"app", [s EXCEPT !.app = OtherApp(@)]>>, <<"app-removed", [s EXCEPT !.app = "none"]>> })
      \cup { <<"balance", [s EXCEPT !.alloc.bals[a][j] = Bump(@)]>> : a \in 1..na, j \in 1..np }
@@ -469,7 +471,8 @@ NonceNorm(n) == IF n = "lz5" THEN "5" ELSE n
 NonceOK(n) == n \notin {"nil", "2^256", "2^263-1", "2^263", "2^264"}
 NParts(p) == IF p.rep > 0 THEN p.rep ELSE Len(p.parts)
 PreImage(p) == <<p.parts, p.rep, NonceNorm(p.nonce), p.cd, p.app, p.ledger, p.virt>>
-ParamsValid(p) == p.cd > 0 /\ NParts(p) >= 2 /\ NParts(p) <= Limit /\ p.app # "nil" /\ NonceOK(p.nonce)
+ParamsValid(p) == /\ p.cd > 0 /\ NParts(p) >= 2 /\ NParts(p) <= Limit /\ p.app # "nil" /\ NonceOK(p.nonce)
+                  /\ \A i \in 1..Len(p.parts) : p.parts[i] # "W0"      \* "W0": a participant without any address (empty map)
 IP(cd, parts, app, nonce, l, v) == [cd |-> cd, parts |-> parts, rep |-> 0, app |-> app, nonce |-> nonce, ledger |-> l, virt |-> v]
 IdBases == { IP(cd, ps, app, n, l, v) : cd \in {1, 60}, ps \in {<<"W1", "W2">>, <<"W1", "W2", "W3">>}, app \in {"none", "APP1"},
                                         n \in {"0", "5", "2^256-1"}, l \in BOOLEAN, v \in BOOLEAN }
@@ -483,6 +486,9 @@ IdVariants(p) ==
     <<"participant-added", [p EXCEPT !.parts = Append(@, "W4")]>>,
     <<"both-flags", [p EXCEPT !.ledger = ~@, !.virt = ~@]>> }
   \cup { <<"participant-address", [p EXCEPT !.parts[i] = "W5"]>> : i \in 1..Len(p.parts) }
+  \* the FIRST participant without any address: no backend can compute an id for it (for later participants nothing
+  \* in the documented constraints forbids it, so that is not a case)
+  \cup { <<"empty-participant", [p EXCEPT !.parts[1] = "W0"]>> }
   \cup (IF Len(p.parts) > 2 THEN { <<"participant-removed", [p EXCEPT !.parts = Drop(@)]>> } ELSE {})
   \cup (IF p.nonce = "5" THEN { <<"nonce-leading-zeros", [p EXCEPT !.nonce = "lz5"]>> } ELSE {})
   \cup { <<"zero-challenge-duration", [p EXCEPT !.cd = 0]>>, <<"one-participant", [p EXCEPT !.parts = <<"W1">>]>>,
